@@ -438,7 +438,12 @@ theorem response_ends_exchange {req r : Dgram} (X : Exchange req r) (c0 : Client
     admitting ANY response datagram carrying the request's token and without `NoLate`; it is false for the pinned
     code (witnesses below).
     Under these hypotheses, for every schedule: never both, never twice (≤ 1 conclusion), and never neither once the
-    client is quiet (send queue empty) unless no copy of the response ever arrived. -/
+    client is quiet (send queue empty) unless no copy of the response ever arrived.
+    The two side conditions are discharged further down: D2 is a theorem about the server model for the piggybacking
+    and the de-duplicating personalities (`server_one_response_message`, inside the closed loop:
+    `exactly_once_closed_loop_partial`); `NoLate` follows from network delays < ACK_TIMEOUT for piggybacked responses
+    (`exactly_once_piggybacked`, `exactly_once_piggybacked_quiet`: nothing left open) and does NOT for separate ones
+    (the open finding); liveness proper is `never_neither`. -/
 theorem exactly_once_partial {req r : Dgram} (X : Exchange req r) (c0 : Client) (hidle : c0.L = Idle)
     (hfresh : fresh c0 r) (now0 T : Nat) (es : List CEvent) (hes : ∀ e ∈ es, ExEv req r e)
     (hlate : NoLate r (c0.appSend now0 req T).1 es) :
